@@ -11,7 +11,9 @@ fi
 PATCH=$(readlink -f "$1"); shift
 [ -d $EV_REPO ] || git -C /repo worktree add -q --detach $EV_REPO HEAD
 git -C $EV_REPO checkout -q --detach $(git -C /repo rev-parse HEAD) && git -C $EV_REPO checkout -q -- . && git -C $EV_REPO clean -qfd -e target
+sleep 2   # keep restored and patched files strictly newer than any earlier build output (cargo freshness is by mtime)
 git -C $EV_REPO apply "$PATCH" || { echo "PATCH DOES NOT APPLY"; exit 2; }
+git -C $EV_REPO diff --name-only | (cd $EV_REPO && xargs -r touch); sleep 2
 [ -d $EV_VERIF ] || git -C /verif worktree add -q --detach $EV_VERIF HEAD
 git -C $EV_VERIF checkout -q -- . && git -C $EV_VERIF checkout -q --detach $(git -C /verif rev-parse HEAD)
 sed -i "s|/repo/crates|$EV_REPO/crates|g" $EV_VERIF/harness/Cargo.toml
